@@ -331,6 +331,18 @@ fn send_packet(socket: &UdpSocket, packet_bytes: &[u8], address: &SocketAddr) {
     }
 }
 
+/// Verification hook: public wrapper around `add_response_to_resources`
+#[cfg(simple_dns_verif)]
+pub fn verif_add_response_to_resources(
+    packet: Packet,
+    service_name: &Name<'_>,
+    full_name: &Name<'_>,
+    owned_resources: &mut ResourceRecordManager,
+    on_discovery: &mut Option<std::sync::mpsc::Sender<InstanceInformation>>,
+) {
+    add_response_to_resources(packet, service_name, full_name, owned_resources, on_discovery)
+}
+
 fn add_response_to_resources(
     packet: Packet,
     service_name: &Name<'_>,
